@@ -131,6 +131,13 @@ def res_coq(r, f) -> str:
     return f"(Raise {n})"
 
 
+# a data type of the same Python type whose validation differs (time zone demanded or not, other width)
+SIBLING_TYPE = {"dateTime": "dateTime.tz", "dateTime.tz": "dateTime", "time": "time.tz", "time.tz": "time",
+                "ui1": "i4", "ui2": "ui4", "ui4": "i2", "ui8": "i8", "i1": "ui4", "i2": "ui2", "i4": "ui1", "i8": "ui8", "int": "ui2",
+                "r4": "fixed.14.4", "r8": "float", "number": "r4", "fixed.14.4": "r8", "float": "number",
+                "string": "uri", "uri": "string", "char": "string", "uuid": "string", "bin.hex": "bin.base64", "bin.base64": "bin.hex"}
+
+
 class Plugin:
     ID = "C08"
     RUN_MODULE = "C08.Run"
@@ -353,6 +360,19 @@ class Plugin:
             if mx is not None:
                 ET.SubElement(r, f"{{{ns}}}maximum").text = mx
         factory = UpnpFactory(requester=None, non_strict=not case.get("strict", True))
+        # the same factory has already built a sibling variable of a related data type with the same declaration
+        # (a real service description holds many variables): the variable under test must not inherit anything
+        # from it (a validator cached per Python type, a shared schema object, ...)
+        sib = SIBLING_TYPE.get(case["type"])
+        if sib is not None and case.get("sibling", True):
+            import copy
+            el2 = copy.deepcopy(el)
+            el2.find(f"{{{ns}}}name").text = "W"
+            el2.find(f"{{{ns}}}dataType").text = sib
+            try:
+                factory._create_state_variable(el2)  # noqa: SLF001
+            except Exception:  # noqa: BLE001 - the sibling's declaration may be invalid for its own type
+                pass
         return factory._create_state_variable(el)  # noqa: SLF001
 
     def run_impl(self, case):
